@@ -209,6 +209,37 @@ fn eval_ilog<T: Int>(c: &(Pat, Pat), obs: &mut Obs) -> Result<(), String> {
     Ok(())
 }
 
+/// Sweep of EVERY exact power b^k that fits the type, with its two neighbours, for a base with its
+/// own code path (10) and a few others: ilog(b^k - 1) = k - 1, ilog(b^k) = ilog(b^k + 1) = k.
+/// The expected values are known by construction, no reference logarithm is needed.
+fn eval_power_sweep<T: Int>(c: &(u64, u32), obs: &mut Obs) -> Result<(), String> {
+    let (base, k) = *c;
+    let zb = Z::from_u64(base);
+    let maxbits = if T::SIGNED { T::W as u64 - 1 } else { T::W as u64 };
+    let Some(p) = zb.pow_capped(k, maxbits) else { return Ok(()) };
+    obs.nt_if(k >= 1);
+    let b: T = T::of_z(&zb);
+    for (d, expect) in [(-1i64, k as i64 - 1), (0, k as i64), (1, k as i64)] {
+        let zx = p.add_i(d);
+        if !zx.is_pos() || !fits::<T>(&zx) || (d == 1 && base == 2 && k == 0) {
+            continue;
+        }
+        // b^k + 1 is still below b^(k+1) for b >= 2 except 1 + 1 = 2 = 2^1 (skipped above)
+        let x: T = T::of_z(&zx);
+        let e = expect as u32;
+        if base == 10 {
+            ck!(format!("checked_ilog10(10^{k} + {d})"), outcome(|| x.checked_ilog10()), Outcome::Returned(Some(e)));
+        }
+        if base == 2 {
+            ck!(format!("checked_ilog2(2^{k} + {d})"), outcome(|| x.checked_ilog2()), Outcome::Returned(Some(e)));
+        }
+        if fits::<T>(&zb) {
+            ck!(format!("checked_ilog({base}^{k} + {d}, {base})"), outcome(|| x.checked_ilog(b)), Outcome::Returned(Some(e)));
+        }
+    }
+    Ok(())
+}
+
 fn jobs_for<U, I>(jobs: &mut Vec<Job>)
 where
     U: UInt + Int<I = I>,
@@ -225,6 +256,20 @@ where
     }));
     jobs.push(Job::new(job_name::<U>("u/ilog"), move |ctx| {
         ctx.run("ilog", ctx.budget(q(QUICK), FACTOR), ilog_cases(sh, false), eval_ilog::<U>);
+    }));
+    jobs.push(Job::new(job_name::<U>("ilog_power_sweep"), move |ctx| {
+        // every exponent for base 10 (own algorithm) and 2; bases 3, 7, 255, 65537 and 2^32 + 15 as well on types up to 1088 bits
+        let w = U::W;
+        let bases: Vec<u64> = if w > 1100 { vec![10, 2] } else { vec![10, 2, 3, 7, 255, 65537, (1u64 << 32) + 15] };
+        let all = move || {
+            let bases = bases.clone();
+            bases.into_iter().flat_map(move |b| {
+                let kmax = (w as f64 / (b as f64).log2()).floor() as u32 + 1;
+                (0..=kmax).map(move |k| (b, k))
+            })
+        };
+        ctx.enumerate("u", "every power b^k that fits (and b^k +- 1) for the swept bases, unsigned", all(), eval_power_sweep::<U>);
+        ctx.enumerate("i", "every power b^k that fits (and b^k +- 1) for the swept bases, signed", all(), eval_power_sweep::<I>);
     }));
     jobs.push(Job::new(job_name::<U>("i/ilog"), move |ctx| {
         ctx.run("ilog", ctx.budget(q(QUICK), FACTOR), ilog_cases(sh, true), eval_ilog::<I>);
@@ -257,7 +302,7 @@ fn main() {
     runner::main(
         Property {
             id: "C08",
-            rule: "pow: bases from {0, +-1, +-2, +-3, 10, small, 2^j, 2^j+-1, -2^j, uniform 0..64-bit, structured patterns} with exponents {0..5, W-1, W, uniform < 2W, u32::MAX, u32::MAX-1, 2^k, 2^k-1}, plus (base, floor(maxbits/log2|base|) + {-2..2}) pairs at the overflow threshold and k-th roots of the bound +-1 with exponent k+-1. Oracle: flag = a^e not representable, decided by capped exact exponentiation in the reference integer; wrapped value by left-to-right modular exponentiation mod 2^W (a different algorithm from bnum's loop; the two reference algorithms are cross-checked); saturating picks MIN for negative base and odd exponent. ilog: x in {b^k, b^k+-1, MAX, patterns} for bases {2, 3, 10, 16, small, 2^j, 2^j+-1, 64-bit, patterns, MAX}, plus invalid arguments (x <= 0, base < 2, negative); oracle = greatest k with b^k <= x by repeated multiplication; checked forms None exactly for invalid arguments; no panic inside the valid forms (dbg build has overflow checks). NON-TRIVIAL: |a|>=2, e>=2 and a^e within a factor |a| of the representable bound; or x within +-1 of an exact power b^k (k>=1); or an invalid log argument. distinct = distinct (profile, job, inputs) by 64-bit hash. 8-bit configuration: all bases x 32 exponents, all (x, base) pairs.",
+            rule: "pow: bases from {0, +-1, +-2, +-3, 10, small, 2^j, 2^j+-1, -2^j, uniform 0..64-bit, structured patterns} with exponents {0..5, W-1, W, uniform < 2W, u32::MAX, u32::MAX-1, 2^k, 2^k-1}, plus (base, floor(maxbits/log2|base|) + {-2..2}) pairs at the overflow threshold and k-th roots of the bound +-1 with exponent k+-1. Oracle: flag = a^e not representable, decided by capped exact exponentiation in the reference integer; wrapped value by left-to-right modular exponentiation mod 2^W (a different algorithm from bnum's loop; the two reference algorithms are cross-checked); saturating picks MIN for negative base and odd exponent. ilog: x in {b^k, b^k+-1, MAX, patterns} for bases {2, 3, 10, 16, small, 2^j, 2^j+-1, 64-bit, patterns, MAX}, plus invalid arguments (x <= 0, base < 2, negative); oracle = greatest k with b^k <= x by repeated multiplication; checked forms None exactly for invalid arguments; no panic inside the valid forms (dbg build has overflow checks). In addition a SWEEP enumerates, for every configuration, every exponent k with b^k representable for b = 10 and b = 2 (plus 3, 7, 255, 65537, 2^32+15 up to 1088 bits) and checks ilog at b^k - 1, b^k, b^k + 1, whose logarithms are known by construction. NON-TRIVIAL: |a|>=2, e>=2 and a^e within a factor |a| of the representable bound; or x within +-1 of an exact power b^k (k>=1); or an invalid log argument. distinct = distinct (profile, job, inputs) by 64-bit hash. 8-bit configuration: all bases x 32 exponents, all (x, base) pairs.",
             assumptions: &[
                 "digits()/from_digits()/to_bits()/from_bits() are the trusted observation channel",
                 "reference exponentiation: exact with a size cap and modular left-to-right; cross-checked against each other in every case where the exact value is small enough",
